@@ -33,8 +33,8 @@ HOSTS = ["h1", "h2", "h3", "0:0:0:0:0:0:0:1"]
 def _auth(h, p):
     return (f"[{h}]" if ":" in h else h) + f":{p}"
 PORTS = [1965, 1966]
-KINDS = ["rsa-a", "ec-a", "ec-b", "ed-a", "hostile-bool", "hostile-v4"]
-PARSABLE = ["rsa-a", "ec-a", "ec-b", "ed-a"]
+KINDS = ["rsa-a", "ec-a", "ec-b", "ed-a", "hostile-bool", "hostile-v4", "twin-a", "twin-b"]
+PARSABLE = ["rsa-a", "ec-a", "ec-b", "ed-a", "twin-a", "twin-b"]
 
 
 def op_st():
